@@ -40,6 +40,7 @@ type Ctx struct {
 	summ     map[string]map[*ssa.Function]bool
 	imports  map[string]*Report
 	decodeSet map[*ssa.Function]bool
+	txCache   map[string][]txInfo
 }
 
 // runCached runs a property's rule set once per loaded configuration; shared
